@@ -1388,6 +1388,25 @@ func ruleResolutionErrorsKept(w *World, r *Report, rule string) {
 				if cond == nil {
 					return
 				}
+				// `re.Cause == ErrServiceNotFound` with re bound by `re, ok := err.(*ResolutionError)`: the
+				// exact outer shape of the error - this very request was not found, nothing was
+				// constructed, there is no constructor error to lose
+				if be, isBe := unparen(cond).(*ast.BinaryExpr); isBe && be.Op == token.EQL && i == 0 {
+					for _, pair := range [][2]ast.Expr{{be.X, be.Y}, {be.Y, be.X}} {
+						sel, isSel := unparen(pair[0]).(*ast.SelectorExpr)
+						if !isSel || sel.Sel.Name != "Cause" {
+							continue
+						}
+						if so := objOf(info, pair[1]); so == nil || so.Name() != "ErrServiceNotFound" {
+							continue
+						}
+						if src := assertedFrom(info, fi.Decl.Body, objOf(info, sel.X)); src != nil {
+							if _, tracked := errOf[src]; tracked {
+								gen = append(gen, "exact-not-found:"+src.Name())
+							}
+						}
+					}
+				}
 				// a predicate on the error (errors.Is(err, X), IsNotFound(err)): true implies err != nil
 				{
 					c, neg := unparen(cond), false
@@ -1433,6 +1452,9 @@ func ruleResolutionErrorsKept(w *World, r *Report, rule string) {
 		for o, what := range errOf {
 			for _, ex := range fl.Exits() {
 				if ex.Panic || !sol.AtExit(ex).Has("failed:"+o.Name()) {
+					continue
+				}
+				if sol.AtExit(ex).Has("exact-not-found:" + o.Name()) {
 					continue
 				}
 				n++
@@ -2072,4 +2094,57 @@ func isPureCounter(w *World, fv *types.Var) bool {
 		}
 	}
 	return true
+}
+
+// assertedFrom: v was bound by `v, ok := e.(*T)` (or `v := e.(*T)`); returns the object of e.
+func assertedFrom(info *types.Info, body ast.Node, v types.Object) types.Object {
+	if v == nil {
+		return nil
+	}
+	var out types.Object
+	ast.Inspect(body, func(x ast.Node) bool {
+		as, ok := x.(*ast.AssignStmt)
+		if !ok || len(as.Rhs) != 1 || len(as.Lhs) == 0 || objOf(info, as.Lhs[0]) != v {
+			return true
+		}
+		if ta, isTA := unparen(as.Rhs[0]).(*ast.TypeAssertExpr); isTA && ta.Type != nil {
+			out = objOf(info, ta.X)
+		}
+		return true
+	})
+	return out
+}
+
+// freshLocalObjectAt: the base of the selector e is a local of the enclosing
+// function bound to a fresh allocation (c := &collection{…}, a constructor call):
+// writes through it fill an object nobody else can see yet - a constructor-like
+// copy, not a mutation of a shared object.
+func freshLocalObjectAt(info *types.Info, at ast.Node, e ast.Expr) bool {
+	id := rootIdent(e)
+	if id == nil || theWorld == nil {
+		return false
+	}
+	o := info.Uses[id]
+	fi := theWorld.FuncAt(at.Pos())
+	if o == nil || fi == nil || isParamOrRecv(fi, info, o) {
+		return false
+	}
+	fresh := false
+	ast.Inspect(fi.Decl.Body, func(y ast.Node) bool {
+		if as, ok := y.(*ast.AssignStmt); ok && len(as.Lhs) == len(as.Rhs) {
+			for i, l := range as.Lhs {
+				if objOf(info, l) != o {
+					continue
+				}
+				if litOf(as.Rhs[i]) != nil {
+					fresh = true
+				}
+				if c, isC := unparen(as.Rhs[i]).(*ast.CallExpr); isC && isFreshConstructorCall(info, c) {
+					fresh = true
+				}
+			}
+		}
+		return true
+	})
+	return fresh
 }
